@@ -30,11 +30,12 @@ func verifSleepForever(d time.Duration) {
 }
 
 type verifCarrierConn struct {
-	in      []byte // what the proxy sends: ClientID ++ encapsulated packets
-	pos     int
-	endRead chan struct{}
-	out     []byte // what the server writes to this carrier
-	closed  bool
+	in        []byte // what the proxy sends: ClientID ++ encapsulated packets
+	pos       int
+	endRead   chan struct{}
+	out       []byte // what the server writes to this carrier
+	closed    bool
+	firstRead int // size of the carrier's first message (0 = everything at once)
 }
 
 func (c *verifCarrierConn) Read(p []byte) (int, error) {
@@ -42,7 +43,11 @@ func (c *verifCarrierConn) Read(p []byte) (int, error) {
 		<-c.endRead // the carrier stays up until the harness cuts it
 		return 0, io.EOF
 	}
-	n := copy(p, c.in[c.pos:])
+	avail := c.in[c.pos:]
+	if c.pos == 0 && c.firstRead > 0 && c.firstRead < len(avail) {
+		avail = avail[:c.firstRead] // a carrier message boundary inside the ClientID prefix
+	}
+	n := copy(p, avail)
 	c.pos += n
 	return n, nil
 }
@@ -86,6 +91,9 @@ func VerifC05_Sessions() {
 	for i := 0; i < 2; i++ {
 		payloads[i] = [2]byte{verifapi.Uint8("payload"), verifapi.Uint8("payload")}
 		carriers[i] = &verifCarrierConn{in: verifCarrierStream(i, npk, payloads[i]), endRead: make(chan struct{})}
+		if i == 0 {
+			carriers[i].firstRead = [2]int{0, 4}[verifapi.Concrete(verifapi.Choice("carrier.firstMessage", 2))]
+		}
 	}
 	addrs := [2]ClientMapAddr{"198.51.100.1:1", "198.51.100.2:1"}
 	for i := 0; i < 2; i++ {
@@ -169,7 +177,7 @@ func verifUpgrade(u *websocket.Upgrader, w http.ResponseWriter, r *http.Request,
 
 var verifUpgraded bool
 
-func verifWSNew(ws *websocket.Conn) *websocketconn.Conn         { return new(websocketconn.Conn) }
+func verifWSNew(ws *websocket.Conn) *websocketconn.Conn        { return new(websocketconn.Conn) }
 func verifWSRead(c *websocketconn.Conn, p []byte) (int, error) { return verifGateConn.Read(p) }
 func verifWSClose(c *websocketconn.Conn) error                 { return verifGateConn.Close() }
 func verifParseIPGate(s string) net.IP                         { return net.IP{198, 51, 100, 9} }
